@@ -87,6 +87,11 @@ CHECKS = {
             "Each history is compiled for the mock core and its per-pin signal (PWM duty, HIGH/LOW, servo angle/pulse, motor direction and duty +-1), delays (< 1 ms apart) and every getter value are compared with what the real host classes compute for the same calls and the same tape; a second family of histories with out-of-range arguments checks that no analogWrite/servo command leaves the documented limits (built with ASan/UBSan).",
             "Mock core observes commands, not electrical behaviour; RGB fade ties and sub-PWM-resolution motor speeds are recorded findings excluded by construction.",
             "DESIGN.md 3/C04"),
+    "C15": ("exploration",
+            "generated input sketches compiled once and run against many generated tapes (button levels, ADC values, echo durations with timeout runs, clock jitter); reference models written from the statement evaluated on the firmware trace; host Button class as a second oracle for click counts",
+            "For every (sketch, tape) pair the trace must show one digitalRead per button per pass plus the initial sample, on_click markers exactly at released->pressed transitions of the sampled signal, every is_pressed() equal to the pass's sample, click counts equal to the host Button's, one analogRead per pot.read() with that value, and for ultrasonic calls the distance formula, <=3 attempts, the last-good/400 fallback and >=60 ms between triggers.",
+            "Virtual clock owned by the harness; millis() rollover cannot be observed on a 64-bit host; loop-declared buttons are a recorded finding.",
+            "DESIGN.md 3/C15"),
 }
 
 PENDING = {}
